@@ -183,6 +183,10 @@ pub enum Op {
     /// put `count` keys from a separate range (100 + first ..), each with the same small weight and the same TTL if any:
     /// fills the cache with many light entries (many victims for one put, many expiries in one sweep)
     Fill { first: u8, count: u8, w: u8, ttl: Option<TtlSel> },
+    /// make `k` a key with a time-to-live if it is not, park the sweeper, move the clock `past_ms` + 1 ms beyond the key's
+    /// deadline (the key is now expired and certainly not swept), execute the wrapped write on `k`, release the sweeper,
+    /// sweep every shard once and read the key with every variant
+    ExpiredWrite { k: u8, past_ms: u32, write: Box<Op> },
     /// inside a burst only: let the parked command worker execute exactly one queued command (the oldest)
     StepWorker,
     /// park the command worker, issue the burst without awaiting, release, await everything
@@ -232,6 +236,8 @@ pub struct GenParams {
     pub fill: u32,
     /// a prelude (another cache on the same thread first) in `prelude` of 8 cases
     pub prelude: u32,
+    /// relative frequency of ExpiredWrite ops (0 = never)
+    pub expired_write: u32,
 }
 
 impl GenParams {
@@ -254,6 +260,7 @@ impl GenParams {
             noise_readers: vec![0],
             fill: 0,
             prelude: 1,
+            expired_write: 2,
         }
     }
 }
@@ -373,6 +380,9 @@ pub fn op_strategy(params: &GenParams) -> BoxedStrategy<Op> {
     choices.push((read.max(3) / 3, (any::<bool>(), prop::collection::vec(key.clone(), 2..=4), prop::collection::vec(writes.clone(), 1..=3)).prop_map(|(map, keys, between)| Op::IterSteps { map, keys, between }).boxed()));
     if params.ttl {
         choices.push(((advance / 3).max(1), (0u8..=3, prop_oneof![Just(1u32), Just(500), Just(1001), Just(2500)], writes.clone()).prop_map(|(after_reads, by_ms, op)| Op::JumpDuring { after_reads, by_ms, op: Box::new(op) }).boxed()));
+    }
+    if params.ttl && params.expired_write > 0 {
+        choices.push((params.expired_write, (key.clone(), prop_oneof![Just(0u32), Just(1), Just(998), Just(1500), Just(3000)], writes.clone()).prop_map(|(k, past_ms, write)| Op::ExpiredWrite { k, past_ms, write: Box::new(write) }).boxed()));
     }
     if params.fill > 0 {
         let ttl: BoxedStrategy<Option<TtlSel>> = if params.ttl { prop_oneof![1 => Just(None), 2 => (0u32..=6).prop_map(|s| Some(TtlSel::Secs(s)))].boxed() } else { Just(None).boxed() };
